@@ -551,7 +551,9 @@ Definition server_legacy (s : Server) (ch : CHello) (v suite : Z) : res (Flight 
   Ok (fl, {| vw_version := v; vw_suite := suite; vw_etm := etm; vw_ems := ems;
              vw_alpn := alpn; vw_npn := None; vw_sni := ch_sni ch;
              vw_send_limit := fst limits; vw_recv_limit := snd limits;
+             (* unrepaired: DHE_DSS is missing from the test, the server forgets its own chain (finding C03-5) *)
              vw_server_chain := if memZ suite certAllSuites || memZ suite ecdheEcdsaSuites
+                                   || (fix_dhe_dsa_chain && memZ suite dheDsaSuites)
                                 then match sv_cert s with Some c => Some (ct_id c) | None => None end
                                 else None;
              vw_client_chain := None; vw_sig := None;
